@@ -14,6 +14,7 @@ import FeatModel.Lemmas.C15Hermite
 import FeatModel.Lemmas.C15Volume
 import FeatModel.Lemmas.C15Unmap
 import FeatModel.Lemmas.C15ConformMesh
+import FeatModel.Lemmas.C15RT
 import FeatModel.Lemmas.C15AnyCell
 /-!
 # C15 — finite-element bases are unisolvent, derivative-consistent and conforming: property theorems
@@ -461,6 +462,35 @@ theorem C15.dual_all_cells_1d2d (key : Key) (h : key ∈ dualKeys2 ++ dualKeys2b
       refine Or.inr (Or.inl ⟨rfl, rfl, ?_⟩)
       simpa [allOrients] using ho
   exact C15.dual_on_every_cell f k dim o tab hc ht hd V w hV j hj Φ hΦ
+
+/-! ## Rannacher–Turek (facet integral means) on arbitrary quadrilaterals / hexahedra -/
+
+/-- **Duality of the facet-weighted mean with the evaluator's basis on every cell.**  For the model of the
+    non-parametric Rannacher–Turek evaluator (`rtPrepare`/`rtValue`, ops `ev`, `interp`: nodal matrix of weighted
+    facet means of the monomials in the linearised coordinates, coefficient matrix = its inverse) and the model of the
+    node functional (`rtFunctional`: `Σ w_i·jac_det_i·f(x_i) / Σ w_i·jac_det_i` over the facet's Gauss points) with the
+    same square root and Gauss coordinate: `N_l(φ_j) = (C·A)[j][l]` on **every** quadrilateral / hexahedron (any vertex
+    coordinates: trapezoid and twisted faces included), hence `δ_jl` whenever the coefficient matrix is the inverse of the
+    nodal matrix.  (FEAT's two Gauss coordinates differ in the 13th digit at `Q` – `Math::sqrt(1/3)` vs. the constant of
+    `gauss-legendre:2` – so the correspondence run sees `δ` up to 1e-12.) -/
+theorem C15.rt_facet_mean_dual (sq : Rat → Rat) (g : Rat) (m : Mesh) (c : Nat) (rc : RTCell)
+    (h : rtPrepare sq g m c = some rc) (j l : Nat) (hj : j < rtN m.dim) (hl : l < rtN m.dim)
+    (hrow : (m.row m.dim (m.dim - 1) c).length = rtN m.dim) :
+    rtFunctional sq g m ((m.row m.dim (m.dim - 1) c).getD l 0) (rtValue rc j)
+        = mat (matMul (rtN m.dim) rc.coeff rc.nodal) j l ∧
+    (matMul (rtN m.dim) rc.coeff rc.nodal = identity (rtN m.dim) →
+      rtFunctional sq g m ((m.row m.dim (m.dim - 1) c).getD l 0) (rtValue rc j) = if j = l then 1 else 0) :=
+  ⟨rt_functional_is_product sq g m c rc h j l hj hl hrow, fun hinv => rt_dual sq g m c rc h hinv j l hj hl hrow⟩
+
+/-- **The plain reference-facet mean is not dual** (witness: the unit cube with vertex 7 moved to (3/2, 5/4, 4/3), kernel
+    evaluation with the square root and Gauss coordinate FEAT uses at `Q`): the coefficient matrix is the inverse of
+    the nodal matrix there (so the weighted functional is dual by `rt_facet_mean_dual`), but the matrix `N'_l(φ_j)` of
+    the unweighted means `Σ w_i f(x_i) / 2^(d-1)` is not the identity. -/
+theorem C15.rt_unweighted_mean_not_dual :
+    rtInverseOk FeatModel.Proto.qsqrt gammaEv cubeMoved7 0 = true ∧
+    (rtDualMatrix (rtFunctionalUnweighted FeatModel.Proto.qsqrt gammaEv) FeatModel.Proto.qsqrt gammaEv cubeMoved7 0
+      != some (identity 6)) = true :=
+  ⟨witness_inverse, witness_unweighted⟩
 
 /-! Non-vacuity of the hypotheses used above. -/
 example : ((Fam.L3, Kind.H, 2) : Key) ∈ checkedKeys := by decide
